@@ -5,7 +5,7 @@ RULE = ("random valid knot vectors (degree 0..4, mixed multiplicities, several i
         "weights; every sub-degree j in 0..p, every parameter in {knots, ends, midpoints, random}; every index form "
         "(int, negative int, slice, [:, j], call), invalid indices.  Non-trivial: degree >= 2 or an interior knot; distinct = "
         "distinct (U, W, j, parameters)."
-        " Also: parameters k +- 1e-20 around every knot and the float next to every rational interior knot; every slice form (negative steps, open and explicit stops, empty) against python's own slicing; evaluation after in-place mutation of the shared KnotVector.")
+        " Also: parameters k +- 1e-20 around every knot and the float next to every rational interior knot; every slice form (negative steps, open and explicit stops, empty) against python's own slicing; evaluation after in-place mutation of the shared KnotVector; degrees 5..10 (Bezier and one interior knot).")
 EXPLANATION = ("L2: Function(U)[:, j](u) vs the model's table+Horner row; L3: vs the Cox-de Boor recursion `cdb` run by the driver, "
                "plus non-negativity, support and partition of unity checked on the implementation's own values.")
 ASSUMPTIONS = ["weights positive"]
@@ -173,6 +173,16 @@ def run(ctx):
             else:
                 steps.append((k, [a + (b - a) * rng.choice(GRID)]))
         run_stateful(ctx, ser(dict(kind="stateful", U=U, steps=steps)))
+    for i in range(budget(ctx, 6, 40)):
+        # high degrees (5..10): Bezier and one interior knot (binomials beyond the small cases)
+        p_ = 5 + i % 6
+        a_ = F(rng.randint(-2, 1))
+        b_ = a_ + rng.choice([1, 2, 3])
+        mid_ = [] if i % 2 == 0 else [a_ + (b_ - a_) * rng.choice(GRID)] * rng.randint(1, 2)
+        U = [a_] * (p_ + 1) + mid_ + [b_] * (p_ + 1)
+        n_ = kv_info(U)[1]
+        W = rand_weights(rng, n_, rng.choice(["none", "none", "pos"]))
+        run_case(ctx, ser(dict(kind="basis", U=U, W=W, us=[a_, b_, (a_ + b_) / 2, a_ + (b_ - a_) * F(1, 7), a_ + (b_ - a_) * F(5, 6)])))
     for i in range(budget(ctx, 120, 1500)):
         big = rng.random() < 0.15
         U = rand_kv(rng, bigknots=big, force_zero=(i % 8 == 0))
